@@ -130,51 +130,21 @@ example : discover project003 (btreeIter enumA) = .ok ["Main", "Stats", "Math"] 
 theorem discover_mem_iff_reach {disk : Disk} {iter : Pkg → List Pkg} (hi : IterOk disk iter)
     {order : List Pkg} (h : discover disk iter = .ok order) :
     order.Nodup ∧ ∀ p, p ∈ order ↔ Reach disk p := by
-  unfold discover at h
-  cases hl : disk.load rootName with
-  | unit decl imps =>
-    simp only [hl] at h
-    by_cases hd : decl = rootName
-    · rw [if_pos hd] at h
-      rw [hd] at hl
-      have inv := discoverLoop_inv hi _ _ _ _ h
-        { nodup := List.nodup_singleton _
-          loads := fun p hp => by
-            have : p = rootName := by simpa using hp
-            exact this ▸ ⟨imps, hl⟩
-          closed := fun p hp d hd => by
-            have : p = rootName := by simpa using hp
-            subst this
-            exact Or.inr (by simpa using hd)
-          reachO := fun p hp => by
-            have : p = rootName := by simpa using hp
-            exact this ▸ Reach.root
-          reachQ := fun q hq => by
-            have hq' : q ∈ iter rootName := by simpa using hq
-            have : q ∈ imps := by
-              have := ((hi rootName).2 q).1 hq'
-              rwa [importsOf_unit hl] at this
-            exact .step .root ⟨imps, hl, this⟩
-          root := by simp }
-      refine ⟨inv.nodup, fun p => ⟨inv.reachO p, ?_⟩⟩
-      intro r
-      induction r with
-      | root => exact inv.root
-      | step _ e ih =>
-        obtain ⟨imps', hl', hb⟩ := e
-        rename_i a b _
-        have hb' : b ∈ iter a := by
-          have := ((hi a).2 b).2
-          rw [importsOf_unit hl'] at this
-          exact this hb
-        rcases inv.closed a ih b hb' with h1 | h1
-        · exact h1
-        · simp at h1
-    · rw [if_neg hd] at h; simp at h
-  | unreadable => simp [hl] at h
-  | noFiles => simp [hl] at h
-  | parse => simp [hl] at h
-  | fileMismatch => simp [hl] at h
+  have inv := discover_inv hi h
+  refine ⟨inv.nodup, fun p => ⟨inv.reachO p, ?_⟩⟩
+  intro r
+  induction r with
+  | root => exact inv.root
+  | step _ e ih =>
+    obtain ⟨imps', hl', hb⟩ := e
+    rename_i a b _
+    have hb' : b ∈ iter a := by
+      have := ((hi a).2 b).2
+      rw [importsOf_unit hl'] at this
+      exact this hb
+    rcases inv.closed a ih b hb' with h1 | h1
+    · exact h1
+    · simp at h1
 
 /-- **before the fix only the concatenation order could vary**: for any two enumerations under which
     the front end succeeds, the package set, the ids and the type-check order (hence the order of
